@@ -51,6 +51,17 @@ Fixpoint utf8_valid_fuel (fuel : nat) (l : bytes) : bool :=
   end.
 Definition utf8_valid (l : bytes) : bool := utf8_valid_fuel (List.length l) l.
 
+(* Utf8Error::valid_up_to(): length of the longest prefix made of whole well-formed sequences *)
+Fixpoint valid_up_to (fuel : nat) (l : bytes) : nat :=
+  match fuel with
+  | O => O
+  | S f => match utf8_first l with
+           | O => O
+           | n => (n + valid_up_to f (skipn n l))%nat
+           end
+  end.
+Definition valid_prefix_len (l : bytes) : nat := valid_up_to (List.length l) l.
+
 (* (b as i8) >= -0x40  <=>  b < 128 || b >= 192 *)
 Definition is_boundary_byte (b : Z) : bool := (b <? 128) || (192 <=? b).
 
